@@ -5,7 +5,7 @@
 
    A member record m carries what the library returns for it (path, filename, target, method, length
    as <<hi, lo>>) plus, from the generator: `produced` (number of bytes a complete decode delivers),
-   `good` (verdict), `sup` (a decoder exists), `block` (the decoder type's block size), `data`
+   `good` (verdict), `data`
    (its bytes, for the print command), `exists` (a file is already at the output path). *)
 EXTENDS ListOutput
 
@@ -23,6 +23,14 @@ S_EXISTS  == <<32, 98, 117, 116, 32, 102, 105, 108, 101, 32, 105, 115, 32, 101, 
 S_SKIPPED == <<32, 58, 32, 83, 107, 105, 112, 112, 101, 100, 46, 46, 46>>
 S_BANNER  == <<58, 58, 58, 58, 58, 58, 58, 58>>
 MAXPROGRESS == 58
+(* block size of each decoder type (the unit of the progress callback): 2048 for the stored methods (they read 1024 bytes at a time),
+   the ring size for -lzs- -lz5- -lh1- -pm2-, half the ring for -lh5- -lh6- -lh7- -lhx-, a quarter of
+   -lh5-'s ring for -lh4-, 2048 for -pm1-, 32768 for LHARK's -lh7- (which the library presents as -lk7-);
+   0 = no decoder for the method *)
+BlockSize(meth) ==
+  CASE meth = <<45, 108, 107, 55, 45>> -> 32768 [] meth = <<45, 108, 104, 48, 45>> -> 2048 [] meth = <<45, 108, 122, 52, 45>> -> 2048 [] meth = <<45, 112, 109, 48, 45>> -> 2048 [] meth = <<45, 108, 122, 115, 45>> -> 2048 [] meth = <<45, 108, 122, 53, 45>> -> 4096 [] meth = <<45, 108, 104, 49, 45>> -> 4096 [] meth = <<45, 108, 104, 52, 45>> -> 4096 [] meth = <<45, 108, 104, 53, 45>> -> 8192 [] meth = <<45, 108, 104, 54, 45>> -> 32768 [] meth = <<45, 108, 104, 55, 45>> -> 65536 [] meth = <<45, 108, 104, 120, 45>> -> 524288 [] meth = <<45, 112, 109, 49, 45>> -> 2048 [] meth = <<45, 112, 109, 50, 45>> -> 8192 [] OTHER -> 0
+LenInt(m) == m.length[1] * 65536 + m.length[2]          \* members with declared lengths below 2^31 only
+Block(m) == BlockSize(m.method)
 
 -------------------------------------------------------------------------------------
 (* the command word: first character = command, then option letters.  Result: [ok, mode, quiet,
@@ -46,7 +54,7 @@ ParseCommand(cmd0) ==
                              IN [a EXCEPT !.wdir = SubSeq(cmd, st, Len(cmd)), !.w = TRUE]
                [] OTHER -> [a EXCEPT !.ok = FALSE]
   IN FoldLeft(step, [ok |-> mode # "unknown", mode |-> mode, quiet |-> 0, verbose |-> FALSE, dry |-> FALSE, overwrite |-> "prompt",
-                     usepath |-> TRUE, wdir |-> <<-1>>, skip |-> 0, w |-> FALSE], [i \in 2..Len(cmd) |-> i])
+                     usepath |-> TRUE, wdir |-> <<-1>>, skip |-> 0, w |-> FALSE], [k \in 1..(IF Len(cmd) > 0 THEN Len(cmd) - 1 ELSE 0) |-> k + 1])
 
 StripSlashes(s) == LET k == IF \E i \in 1..Len(s) : s[i] # 47 THEN (CHOOSE i \in 1..Len(s) : s[i] # 47 /\ \A j \in 1..(i - 1) : s[j] = 47) ELSE Len(s) + 1
                    IN SubSeq(s, k, Len(s))
@@ -58,10 +66,10 @@ OutPath(m, o) == (IF o.wdir # <<-1>> THEN o.wdir \o <<47>> ELSE <<>>)
 NameStatus(fn, status) == <<13>> \o SafeText(fn) \o <<9, 45, 32>> \o status \o <<32, 32>>
 \* everything the progress callback prints while `produced` of `total` bytes are decoded
 ProgressText(fn, op, m, o) ==
-  LET total  == (m.lenint + m.block - 1) \div m.block
+  LET total  == (LenInt(m) + Block(m) - 1) \div Block(m)
       factor == 1 + total \div MAXPROGRESS
       nb     == (total + factor - 1) \div factor
-      done   == (m.produced + m.block - 1) \div m.block
+      done   == (m.produced + Block(m) - 1) \div Block(m)
   IN IF o.quiet >= 2 THEN <<>>
      ELSE IF o.quiet = 1 THEN <<13>> \o SafeText(fn) \o <<32, 58>>
      ELSE NameStatus(fn, op) \o Rep(46, nb) \o NameStatus(fn, op)
@@ -75,7 +83,7 @@ IsFileM(m) == m.method # LHDm
 TestMember(m, o) ==
   LET fn == OutPath(m, o) IN
   IF o.dry THEN (IF IsFileM(m) THEN SafeText(S_VERIFY \o fn) \o <<10>> ELSE <<>>)
-  ELSE IF IsFileM(m) /\ m.sup /\ m.block > 0
+  ELSE IF IsFileM(m) /\ Block(m) > 0
        THEN ProgressText(fn, S_TESTING, m, o)
             \o (IF o.quiet < 2 THEN NameStatus(fn, IF m.good THEN S_TESTED ELSE S_CRCERR) \o <<10>> ELSE <<>>)
        ELSE <<>>
@@ -100,7 +108,7 @@ ExtractMember(m, o) ==
   LET fn == OutPath(m, o) IN
   IF IsDir(m) THEN <<>>
   ELSE IF IsLink(m) THEN (IF o.quiet < 2 THEN SafeText(S_SYMLINK \o fn \o ARROW \o m.target) \o <<10>> ELSE <<>>)
-  ELSE IF m.sup /\ m.block > 0
+  ELSE IF Block(m) > 0
        THEN ProgressText(fn, S_MELTING, m, o)
             \o (IF o.quiet < 2 THEN NameStatus(fn, IF m.good THEN S_MELTED ELSE S_FAILURE) \o <<10>> ELSE <<>>)
        ELSE <<>>
@@ -115,5 +123,5 @@ Output(members, o, filters) ==
 Fails(members, o, filters) ==
   LET sel == SelectSeq(members, LAMBDA m : Selected(filters, FullPath(m)))
   IN IF o.dry \/ o.mode = "print" THEN FALSE
-     ELSE \E i \in 1..Len(sel) : IsFileM(sel[i]) /\ ~(sel[i].sup /\ sel[i].good)
+     ELSE \E i \in 1..Len(sel) : IsFileM(sel[i]) /\ ~(Block(sel[i]) > 0 /\ sel[i].good)
 =======================================================================================
